@@ -124,14 +124,28 @@ def gen_lines_file(rng):
         primary = rng.choice(FILES[:2])
         off = len(line)
         line += gen_line_unit(rng, ver, le, asz, lstr, comp_dir, primary)
-        cu = dwtab.CU(version=ver if ver != 5 else 5, asz=asz, le=le)
-        form = 0x17 if ver >= 4 else 0x06
-        cu.root_attrs = [(0x1b, 0x08, comp_dir.encode() + b'\0', None), (0x10, form, struct.pack(E + 'I', off), None)]
+        # a unit in the 64-bit format may refer to a 32-bit table (gcc -gdwarf64 with the assembler's line tables)
+        fmt = 64 if rng.random() < 0.2 else 32
+        cu = dwtab.CU(version=ver if ver != 5 else 5, asz=asz, le=le, fmt=fmt)
+        form = 0x17 if ver >= 4 else (0x06 if fmt == 32 else 0x07)
+        cu.root_attrs = [(0x1b, 0x08, comp_dir.encode() + b'\0', None), (0x10, form, struct.pack(E + ('I' if fmt == 32 else 'Q'), off), None)]
         cu.root_name = primary
         u, ab, _ = cu.build(abbrev_base=len(abbrevs))
         units += u
         abbrevs += ab
-        shape.append(ver)
+        shape.append((ver, fmt))
+        if i == 0:
+            first = (ver, comp_dir, primary)
+    if n >= 2 and rng.random() < 0.3:
+        # a partial unit factored out of the first unit keeps that unit's table: the units sharing a table are not neighbours
+        ver, comp_dir, primary = first
+        cu = dwtab.CU(version=ver, asz=asz, le=le, root_tag=0x3c, unit_type=3)
+        cu.root_attrs = [(0x1b, 0x08, comp_dir.encode() + b'\0', None), (0x10, 0x17 if ver >= 4 else 0x06, struct.pack(E + 'I', 0), None)]
+        cu.root_name = primary
+        u, ab, _ = cu.build(abbrev_base=len(abbrevs))
+        units += u
+        abbrevs += ab
+        shape.append((ver, 'shares-first'))
     secs = {'.debug_info': units, '.debug_abbrev': abbrevs, '.debug_line': bytes(line), '.debug_line_str': bytes(lstr)}
     img = oracles.wrap_debug(secs, le, cls=cls, machine=machine, etype=2)
     return img, dict(cls=cls, le=le, versions=shape)
